@@ -20,22 +20,25 @@ CONFIG = {
             "(single/pair) ALL expression trees with one or two operator nodes over 69 one-hole constructor contexts, each in minimal, fully parenthesised and seeded layouts; (triple) all operator triples over one representative per precedence row in all 5 shapes; (unary) unary x unary x infix interplay incl. -a**-b; "
             "(random) seeded trees of depth <= 5 x 8 layouts (redundant parentheses, glued/blank/tab spacing, backslash continuation, newlines and comments inside brackets, trailing commas, alternative literal spellings and escapes, split literals); "
             "(delete/insert) every single-token deletion and seeded single-token insertions of valid expressions: SyntaxError or exactly the tree the Lean grammar assigns; "
-            "(indent/indent-tree/lexedge) seeded block trees rendered with free indentation widths, tabs, blank/comment lines, bracket continuation lines and backslash continuation: token stream of parser.LexString and tree of ParseString; (illegal/legal/tree) texts outside the grammar. "
+            "(indent/indent-tree/lexedge) seeded block trees rendered with free indentation widths, tabs, blank/comment lines, bracket continuation lines and backslash continuation: token stream of parser.LexString and tree of ParseString; (illegal/legal/tree) texts outside the grammar; "
+            "(stmt) 234 hand-written legal statement texts covering every statement kind and layout; (stmt-illegal) 296 illegal statement texts incl. the repaired K01/K02/K03 families; (stmt-mut) every single-character deletion of the legal texts; (stmt-rand) seeded statement trees of depth <= 3 x 3 layouts: tree and accept/reject verdict DERIVED by the Lean statement grammar GPy.C06.Stmt. "
             "non-trivial = every case (each text reaches the lexer state machine and at least one literal/operator/indentation decision); distinct = distinct input lines",
     "trusted_base": [
         "Lean 4.33.0 kernel; axioms allowed: propext, Classical.choice, Quot.sound (audited per theorem on every run)",
-        "lean/GPy/C06/Spec.lean: my transcription of the Python 3.4 reference: escape table (2.4.1), integer literals (2.4.4), operator precedence table (6.15) and the printer `render`",
+        "lean/GPy/C06/Spec.lean: my transcription of the Python 3.4 reference: escape table (2.4.1), integer literals (2.4.4), operator precedence table (6.15) and the printer `render` (token level: minimal parentheses + any redundant ones, trailing commas); the round-trip theorem is about this printer",
         "lean/GPy/C06/Model.lean: hand transliteration of parser/stringescape.go DecodeEscape, parser/lexer.go (refill, countIndent, Lex state machine, readNumber, readString, readIdentifier, readOperator) and a cascade parser driven by Generated.table; tied to the repo by the correspondence run only",
+        "lean/GPy/C06/Stmt.lean: hand transliteration of the statement rules of parser/grammar.y (file_input ... suite, typedargslist, decorators) and of their semantic actions (setCtx, default order, bare *, try shapes, augmented-assignment targets); no theorems about it, tied by the correspondence run only",
         "lean/GPy/C06/Generated.lean: regenerated from parser/grammar.y by extract/yaccfacts on every run; y.go (the LALR tables goyacc generated from grammar.y) is tied by the correspondence run only",
         "Go: strconv.ParseUint/ParseFloat, math/big SetString, regexp leftmost-first semantics, bufio ReadString, unicode/utf8 as documented; unicode.In category tables are NOT modelled (three sample non-ASCII letters only)",
         "harness/c06.go (reflective tree walker, canonical S-expressions, float canonicalisation through the shortest round-trip decimal) and checks/common.py",
     ],
     "assumptions": [
-        "the Lean parser covers the expression fragment (all binary/unary/boolean/comparison operators, conditional, lambda with plain parameters, calls with positional arguments, subscripts by index, attributes, tuple/list displays, adjacent string literals, top-level testlist); statements, comprehensions, slices, keyword/star arguments, dict/set displays, yield are covered by spec-vs-implementation cases only (no Lean grammar)",
+        "the Lean expression parser (Model.lean section 5, the object of parse_render_roundtrip) covers the expression fragment (all binary/unary/boolean/comparison operators, conditional, lambda with plain parameters, calls with positional arguments, subscripts by index, attributes, tuple/list displays, adjacent string literals, top-level testlist); comprehensions, slices, keyword/star arguments, dict/set displays, yield are covered by spec-vs-implementation cases only (no Lean grammar)",
+        "parse_render_roundtrip is a theorem about token lists (Spec.render -> parseEvalToks); the text level (spacing, comments, continuation lines, literal spellings -> tokens) is tied by the correspondence run (lex_render is not proved), except integer literals (int_literal_value*) and string escapes (decode_escape_spec*)",
         "line/column positions of tokens and nodes are not compared",
         "float literals: the value is the exact decimal m*10^e; the binary rounding is strconv's and is compared through the shortest round-trip decimal (literals of <= 15 significant digits only)",
         "non-ASCII identifier characters: only U+00E9, U+03BB, U+4E2D (start) and U+0301, U+0661 (continue) are known to the model",
-        "for the recorded accepted-but-illegal statement texts (C06-K01..K03, K07) the model verdict is the recorded behaviour, not derived from a Lean statement grammar",
+        "statement fragment of the Lean grammar excludes star_expr targets, yield, annotations/->, keyword/star arguments, comprehensions, slices, dict/set displays; such texts are not generated (mutants leaving the fragment are skipped by outsideStmtFragment)",
     ],
     "exhaustive": False,
     "dist_tokens": 1,
